@@ -92,6 +92,10 @@ def main(argv):
         rep = json.load(open(argv[2]))
         ctx = core.Ctx(prop, "quick", rep.get("seed", 0))
         return mod.replay(ctx, rep)
+    # library warnings (deprecations re-enabled by skcriteria itself) go to a log file
+    os.makedirs(os.path.join(core.VERIF, "work"), exist_ok=True)
+    errlog = os.open(os.path.join(core.VERIF, "work", f"{prop}.stderr"), os.O_WRONLY | os.O_CREAT | os.O_TRUNC)
+    os.dup2(errlog, 2)
     tier = argv[1]
     if tier not in ("quick", "thorough"):
         tier = os.environ.get("VERIF_TIER", "quick")
